@@ -11,7 +11,8 @@ Rand == { [fam |-> "C07", kind |-> "random", start |-> 0, g |-> 1, k |-> 2, read
 Conc == { [fam |-> "C07", kind |-> "concurrent", start |-> s, g |-> g, k |-> ConcOps \div g, readers |-> r,
             class |-> "concurrent_g" \o ToString(g) \o (IF s > 60000 THEN "_wraps" ELSE "")]
           : s \in {65530, 0, 32767}, g \in Gs, r \in {0, 2} }
-Raw == SetToSeq(Fixed) \o SetToSeq(Rand) \o SetToSeq(Conc)
+Many == { [fam |-> "C07", kind |-> "random_many", start |-> 0, g |-> 1, k |-> 500000, readers |-> 0, class |-> "random_many", n |-> i] : i \in 1..2 }
+Raw == SetToSeq(Fixed) \o SetToSeq(Rand) \o SetToSeq(Conc) \o SetToSeq(Many)
 CaseSeq == [i \in 1..Len(Raw) |-> Raw[i] @@ [case |-> i]]
 ASSUME WriteCases(CaseSeq) /\ PrintT(<<"CASES", Len(CaseSeq)>>)
 =============================================================================
